@@ -253,6 +253,15 @@ def run(ck):
                   "%s, reached from installMessageHandler(), installs %s: while an installed logger is installed again its messages go to that handler for a moment and bypass the pipeline" %
                   (f_.name.split("::")[-1], describe(a0)[:40]), key="installMessageHandler|transient-uninstall|%s" % f_.name.split("::")[-1])
     ck.require(n_qi >= 1, "installMessageHandler no longer reaches qInstallMessageHandler")
+    # who may change Qt's message handler at all: the install / restore pair; anything else takes the logger out of the message path
+    # for as long as it likes (while another thread logs, those messages never enter the pipeline)
+    allowed_ids = set(ids) | F.reachable_from([F.fn(LG + "::restorePreviousMessageHandler")], virtual=False)
+    for f_ in sorted(F.fns.values(), key=lambda f: (f.file, f.line, f.sig)):
+        if f_.body is None or "/src/qtlogger/" not in (f_.file or "") or f_.id in allowed_ids:
+            continue
+        for q in f_.calls("qInstallMessageHandler"):
+            ck.ob("C02-O7", sitestr(f_, q), False, "%s changes Qt's message handler (%s) outside installMessageHandler()/restorePreviousMessageHandler(): until it puts the logger back, messages logged by "
+                  "other threads go to another handler and never enter the pipeline" % (f_.name.split("QtLogger::")[-1], describe(q)[:50]), key="qInstallMessageHandler|outside-protocol|%s" % f_.name.split("::")[-1])
     # informational: stateful handlers
     for fld in ("QtLogger::SeqNumberAttr::m_count", "QtLogger::DuplicateFilter::m_lastMessage", "QtLogger::PrettyFormatter::m_threads",
                 "QtLogger::PrettyFormatter::m_threadsIndex", "QtLogger::PrettyFormatter::m_categoryWidth"):
